@@ -147,10 +147,13 @@ func TestC11(t *testing.T) {
 		for i := 0; i < r.N(100, 3000); i++ {
 			tickerOverlapCase(t, r, i)
 		}
+		for i := 0; i < r.N(30, 500); i++ {
+			parkedCacheWrite(t, r, i)
+		}
 		realServer(t, r)
 	}
 	r.Require("polls_ok", "polls_failed", "changes_forward", "changes_backward", "changes_inside_window", "expired_with_handle_polls",
-		"cadence_rounds", "ticker_overlap_cases", "coalesced_refreshes", "coalesced_with_cancelled_leader", "real_server_refreshes", "final_convergence_checks")
+		"cadence_rounds", "cadence_cases_with_slow_service", "parked_cache_write_cases", "ticker_overlap_cases", "coalesced_refreshes", "coalesced_with_cancelled_leader", "real_server_refreshes", "final_convergence_checks")
 	r.Rule("A: seeded histories of 8-25 events over 2-5 secrets (declared, looked-up, expiry-aged with a live unread handle): service changes (new version / re-activate an older one / bursts), Refresh with per-request failure and hold scripts (service changes inside the held window), sleeps up to several expiry ages, handle probes; oracle after every Refresh on the cache payload and at probes on handles. Plus cadence cases (background poller, instant service), coalescing cases (K refreshes while the first request is parked) and B: real server+client histories. Distinct = (event kind, poll outcome, backwards?, held?, expiry shape)")
 }
 
@@ -419,6 +422,21 @@ func cadenceCase(t *testing.T, r *evid.Run, idx int) {
 		svc.Set("a", 1, []byte("a1"))
 		svc.Set("b", 1, []byte("b1"))
 		interval := []time.Duration{time.Second, time.Minute, time.Hour, 7 * time.Hour, 0}[rng.IntN(5)]
+		// the service may take a noticeable part of the interval to answer; the cadence is per interval all the same
+		if lat := []time.Duration{0, 0, 20, 8}[rng.IntN(4)]; lat > 0 {
+			eff := interval
+			if eff == 0 {
+				eff = time.Hour
+			}
+			d := eff / lat
+			svc.Behave = func(q *fakesvc.Req) fakesvc.Behaviour {
+				if q.Cond {
+					return fakesvc.Behaviour{Delay: d}
+				}
+				return fakesvc.Behaviour{}
+			}
+			r.Count("cadence_cases_with_slow_service", 1)
+		}
 		st, err := setec.NewStore(context.Background(), setec.StoreConfig{Client: svc, Secrets: []string{"a", "b"}, PollInterval: interval, Logf: func(string, ...any) {}})
 		if err != nil {
 			t.Fatalf("NewStore: %v", err)
@@ -432,12 +450,14 @@ func cadenceCase(t *testing.T, r *evid.Run, idx int) {
 		st.Close()
 		// round instants = distinct start times of conditional requests
 		var rounds []time.Duration
+		nCond := 0
 		for _, q := range svc.Log() {
 			if q.Cond {
-				at := q.Start.Sub(start)
-				if len(rounds) == 0 || rounds[len(rounds)-1] != at {
-					rounds = append(rounds, at)
+				// a round asks for both secrets, one after the other, in no particular order: its first request marks it
+				if nCond%2 == 0 {
+					rounds = append(rounds, q.Start.Sub(start))
 				}
+				nCond++
 			}
 		}
 		r.Count("cadence_rounds", len(rounds))
@@ -708,4 +728,76 @@ func tickerOverlapCase(t *testing.T, r *evid.Run, idx int) {
 			}
 		}
 	})
+}
+
+// parkedCacheWrite: a lookup's cache write is slow; meanwhile a poll installs a new version of another
+// secret and returns nil. Whatever order the writes are issued in, the cache must end up holding what
+// the store serves ("and the cache holds the same").
+func parkedCacheWrite(t *testing.T, r *evid.Run, idx int) {
+	r.Eval(1)
+	svc := fakesvc.New()
+	svc.Set("alpha", 1, []byte("alpha-1"))
+	svc.Set("late", 1, []byte("late-1"))
+	release := make(chan struct{})
+	parked := make(chan struct{}, 1)
+	armed := false
+	cache := &fakesvc.MonCache{}
+	cache.OnWrite = func(n int, data []byte) {
+		if armed {
+			armed = false
+			parked <- struct{}{}
+			<-release
+		}
+	}
+	st, err := setec.NewStore(context.Background(), setec.StoreConfig{Client: svc, Secrets: []string{"alpha"}, AllowLookup: true, Cache: cache, PollInterval: -1, Logf: func(string, ...any) {}})
+	if err != nil {
+		t.Fatal(err)
+	}
+	defer st.Close()
+	armed = true
+	l := make(chan error, 1)
+	go func() { _, err := st.LookupSecret(context.Background(), "late"); l <- err }()
+	select {
+	case <-parked:
+	case <-time.After(20 * time.Second):
+		r.Inconclusive("parked cache write: the lookup's cache write never started")
+		close(release)
+		return
+	}
+	svc.Set("alpha", 2, []byte("alpha-2"))
+	p := make(chan error, 1)
+	go func() { p <- st.Refresh(context.Background()) }()
+	var perr error
+	select {
+	case perr = <-p: // the poll got past the lookup's write (it cannot, if writes are ordered like installs)
+	case <-time.After(30 * time.Millisecond):
+		perr = nil
+		p = nil
+	}
+	close(release)
+	if err := <-l; err != nil {
+		t.Fatal(err)
+	}
+	if p == nil {
+		// the poll was still waiting; run it to completion now
+		// (it is the goroutine started above; wait for it through a second refresh that joins or follows it)
+		if err := st.Refresh(context.Background()); err != nil {
+			perr = err
+		}
+	}
+	if perr != nil {
+		r.Violation("real-refresh-fails", -1, fmt.Sprintf("parked cache write %d: Refresh: %v", idx, perr), nil)
+		return
+	}
+	r.Count("parked_cache_write_cases", 1)
+	r.Distinct("parked-cache-write")
+	got := string(st.Secret("alpha").Get())
+	pl, err := payload(cache)
+	if err != nil {
+		r.Violation("cache-not-a-document", -1, err.Error(), nil)
+		return
+	}
+	if got != "alpha-2" || pl["alpha"].Bytes != got || pl["alpha"].Version != 2 || pl["late"].Bytes != "late-1" {
+		r.Violation("handle-and-cache-disagree", -1, fmt.Sprintf("parked cache write %d: after the poll returned nil the store serves %q for alpha but the cache holds %+v (late: %+v)", idx, got, pl["alpha"], pl["late"]), map[string]any{"cache": string(cache.Last())})
+	}
 }
